@@ -471,6 +471,24 @@ with_client!(c23_t_nts_v5_long_c, 5, |c| {
 });
 
 // server cookie keys (real KeySet::get / decode_cookie; AES-SIV stubbed by the oracle model)
+/// Server keys, cookie present, every AEAD call refused (oracle tape all false): the real
+/// `KeySet::get` / `KeySet::decode_cookie` run on arbitrary cookie bytes (too short, unknown key id,
+/// ciphertext length beyond the cookie, refused by the cookie key) and the packet ends as a decrypt
+/// error. The accepting path (cookie decrypted, session keys built, field decrypted) does not fit:
+/// 3.1M SSA steps, 886 s of symbolic execution, solver out of memory at 12 GB (c23_t_nts_v4_k below,
+/// not registered); what decode_cookie does with a decrypted cookie is C26's subject.
+with_keyset!(c23_t_nts_v4_refused_k, 5, |c| {
+    unsafe { ORACLE_ACCEPT = [false; TAPE]; }
+    let x = nts4!(c, 16, 16, 0);
+    assert!(x == DEC, "cookie not accepted by the server keys: decrypt error");
+    kani::cover!(x == DEC, "reached");
+});
+with_keyset!(c23_t_nts_v5_refused_k, 5, |c| {
+    unsafe { ORACLE_ACCEPT = [false; TAPE]; }
+    let x = nts5c!(c, 16, 16);
+    assert!(x == DEC, "cookie not accepted by the server keys: decrypt error");
+    kani::cover!(x == DEC, "reached");
+});
 with_keyset!(c23_t_nts_v4_k, 5, |c| {
     // empty plaintext (ciphertext = tag): the key-size loops of decode_cookie need a large global
     // unwind bound, which the plaintext field parser would spend on infeasible iterations
